@@ -1,0 +1,64 @@
+//go:build verif
+// +build verif
+
+/*
+ * Verification hook (build tag verif): exports of unexported coin-selection code for the /verif harness.
+ * No behaviour change: every function forwards to the production code of this package.
+ */
+
+package btc
+
+import (
+	"github.com/btcsuite/btcd/wire"
+	"github.com/polynetwork/poly/native"
+)
+
+// VerifChooseUtxos is chooseUtxos (coin selection + removal from the UTXO set + STXO recording).
+func VerifChooseUtxos(service *native.NativeService, chainID uint64, amount int64, outs []*wire.TxOut, rk []byte, m, n int) ([]*Utxo, int64, int64, error) {
+	return chooseUtxos(service, chainID, amount, outs, rk, m, n)
+}
+
+// VerifMakeBtcTx is makeBtcTx (coin selection, change output, unsigned transaction stored and notified).
+func VerifMakeBtcTx(service *native.NativeService, chainID uint64, amounts map[string]int64, fromTxHash []byte,
+	fromChainID uint64, redeemScript, rk []byte) error {
+	return makeBtcTx(service, chainID, amounts, fromTxHash, fromChainID, redeemScript, rk)
+}
+
+func VerifPutUtxos(service *native.NativeService, chainID uint64, utxoKey string, utxos *Utxos) {
+	putUtxos(service, chainID, utxoKey, utxos)
+}
+
+func VerifGetUtxos(service *native.NativeService, chainID uint64, utxoKey string) (*Utxos, error) {
+	return getUtxos(service, chainID, utxoKey)
+}
+
+func VerifGetStxos(service *native.NativeService, chainID uint64, utxoKey string) (*Utxos, error) {
+	return getStxos(service, chainID, utxoKey)
+}
+
+// VerifSelect runs CoinSelector.Select with the constants chooseUtxos uses; strategy "" = Select,
+// "bnb" = SimpleBnbSearch only, "sorted" = SortedSearch only.  sorted must be in the order chooseUtxos establishes.
+func VerifSelect(strategy string, sorted *Utxos, target, minChange, feeRate uint64, outs []*wire.TxOut, m, n int) ([]*Utxo, uint64, uint64) {
+	cs := &CoinSelector{
+		sortedUtxos: sorted,
+		target:      target,
+		maxP:        MAX_FEE_COST_PERCENTS,
+		tries:       MAX_SELECTING_TRY_LIMIT,
+		mc:          minChange,
+		k:           SELECTING_K,
+		txOuts:      outs,
+		feeRate:     feeRate,
+		m:           m,
+		n:           n,
+	}
+	switch strategy {
+	case "bnb":
+		if sorted == nil || len(sorted.Utxos) == 0 {
+			return nil, 0, 0
+		}
+		return cs.SimpleBnbSearch(0, make([]*Utxo, 0), 0)
+	case "sorted":
+		return cs.SortedSearch()
+	}
+	return cs.Select()
+}
